@@ -188,3 +188,33 @@ def compile_predicate(expr, var, resolver, extra=None):
         raise AnalysisError(f"predicate term {ast.unparse(t)} is neither `{var}` nor a constant")
 
     return ev(expr)
+
+
+def eval_finite(program, fn, expr, env, n):
+    """Value of `expr` (inside fn) on a finite domain of n cells: env maps names / attribute texts to numpy arrays.
+    A local name outside env is replaced by its unique reaching definition (single assignment in fn, not in a loop).
+    Returns a numpy array or raises AnalysisError. Nothing of the analysed program is executed."""
+    import numpy as np
+    from ..core.vec import Vec
+    from ..core.flow import local_assignments
+    res = norm.Resolver(program, fn.module, fn.cls)
+    depth = [0]
+
+    def attr_hook(text, node, mask):
+        if text in env:
+            return env[text]
+        if isinstance(node, ast.Name):
+            defs = local_assignments(fn, node.id)
+            in_loop = any(isinstance(l, (ast.For, ast.While)) and any(isinstance(s, ast.Assign) and any(isinstance(t, ast.Name) and t.id == node.id for t in s.targets)
+                                                                     for s in ast.walk(l)) for l in walk_no_defs(fn.node))
+            if len(defs) == 1 and defs[0] is not None and not in_loop and depth[0] < 4:
+                depth[0] += 1
+                try:
+                    return v.eval(defs[0], mask)
+                finally:
+                    depth[0] -= 1
+        return NotImplemented
+
+    v = Vec(n, res, attr_hook, lambda call, mask, interp: NotImplemented)
+    out = v.eval(expr, np.ones(n, dtype=bool))
+    return v.arr(out) if not isinstance(out, np.ndarray) else out
